@@ -43,6 +43,7 @@ PINS.update({
 PINS["select returns numpy"] = ("C06", ["regress/C06/select-mixed-dtype.json"])
 PINS["gradient of x[list_of_bools]"] = ("C11", ["regress/C11/bool-list-index.json"])
 PINS["indexed and dense contributions to a 0-d"] = ("C11", ["regress/C11/rank0-sparse-dense.json"])
+PINS["trace-depth counter is per thread"] = ("C20", ["regress/C20/shared-trace-counter.json"])
 EXTRA = {}
 
 
